@@ -1,6 +1,7 @@
 SPECIFICATION Spec
 CONSTANTS
   RoundCounts = {1, 2, 5, 20}
+  Writers = {"", "mw", "errflusher", "unwrap"}
   Emit = TRUE
 INVARIANT EmitInv
 CHECK_DEADLOCK FALSE
